@@ -1,0 +1,25 @@
+//go:build verif
+
+package tendermint
+
+import (
+	"time"
+)
+
+// Exported wrappers of unexported functions for the external verification harness
+// (family tmverify, add-only).
+
+// VerifVCalculateNewTrustingPeriod exposes calculateNewTrustingPeriod.
+func VerifVCalculateNewTrustingPeriod(trustingPeriod, originalUnbonding, newUnbonding time.Duration) time.Duration {
+	return calculateNewTrustingPeriod(trustingPeriod, originalUnbonding, newUnbonding)
+}
+
+// VerifVCheckTrustedHeader exposes checkTrustedHeader.
+func VerifVCheckTrustedHeader(header *Header, consState *ConsensusState) error {
+	return checkTrustedHeader(header, consState)
+}
+
+// VerifVCheckMisbehaviourHeader exposes checkMisbehaviourHeader.
+func VerifVCheckMisbehaviourHeader(clientState *ClientState, consState *ConsensusState, header *Header, currentTimestamp time.Time) error {
+	return checkMisbehaviourHeader(clientState, consState, header, currentTimestamp)
+}
